@@ -81,7 +81,7 @@ def plan(tier):
     ntasks = len(cat["tasks"])
     req = ["roundtrip:Mps", "roundtrip:MpDm", "roundtrip:Mpo", "roundtrip:TTNS", "complex", "qn-one", "qn-two",
            "spill", "enum:python", "gen:2", "history:ioerror-swallowed", "pos:inside-dump", "control", "long-chain", "spill:accessor-walk",
-           "thermal-job", "thermal-job:dump_mps=one", "thermal-job:dump_mps=all"]
+           "thermal-job", "thermal-job:dump_mps=one", "thermal-job:dump_mps=all", "tree:labels-of-both-signs"]
     if cat["strace_available"] and "strace" in cat["enumerators"]:
         req.append("enum:strace")
     # a further generation exists only if the previous one left a directory state not seen before (restart closure)
@@ -616,6 +616,13 @@ def tree_basis(rng):
     if long_tree:
         n = int(rng.integers(11, 13))       # more than ten nodes: multi-digit keys in the file
     out, desc = [], []
+    if not long_tree and rng.random() < 0.2:
+        # labels of both signs (S_z-like): negative numbers on the bonds and possibly as the total
+        for i in range(n):
+            sq = [1, -1] if rng.random() < 0.7 else [-1, 1]
+            out.append(ba.BasisHalfSpin(f"s{i}", sigmaqn=sq))
+            desc.append(["HalfSpin", sq])
+        return out, "signed", desc
     for i in range(n):
         r = 0.0 if long_tree else rng.random()
         if mode == "two":
@@ -707,6 +714,10 @@ def roundtrip_tree(ctx, tmp):
     basis_list, mode, bdesc = tree_basis(rng)
     ctx.cls("qn-" + mode)
     # (general_mctdh creates one-component virtual basis sets: with two quantum numbers it refuses the tree)
+    signed = mode == "signed"
+    if signed:
+        mode = "one"
+        ctx.cls("tree:labels-of-both-signs")
     shape = str(rng.choice(["linear", "binary", "mctdh2", "mctdh3"] if mode != "two" else ["linear", "binary"]))
     if shape == "linear":
         tree = ctx.lib(BasisTree.linear, basis_list, what="BasisTree", promised=False)
@@ -730,12 +741,24 @@ def roundtrip_tree(ctx, tmp):
     hist = []
 
     def build():
-        if rng.random() < 0.2:
+        if signed or rng.random() < 0.2:       # (TTNS.random needs non-negative labels)
             cond = {b.dof: int(np.flatnonzero(np.all(np.asarray(b.sigmaqn).reshape(b.nbas, -1) == 0, axis=1))[0])
                     if mode == "none" or not np.any(np.asarray(b.sigmaqn) != 0) else int(rng.integers(0, b.nbas))
                     for b in basis_list}
             hist.append("product")
-            return TTNS(tree, cond)
+            p0 = TTNS(tree, cond)
+            if signed and rng.random() < 0.7:
+                # a second product state of the same sector (two spins exchanged) added: bonds of dimension two with
+                # labels of both signs
+                keys = [b.dof for b in basis_list]
+                i_, j_ = rng.choice(len(keys), size=2, replace=False).tolist()
+                if np.array_equal(np.asarray(basis_list[i_].sigmaqn)[cond[keys[i_]]] + np.asarray(basis_list[j_].sigmaqn)[cond[keys[j_]]],
+                                  np.asarray(basis_list[i_].sigmaqn)[cond[keys[j_]]] + np.asarray(basis_list[j_].sigmaqn)[cond[keys[i_]]]):
+                    c2 = dict(cond)
+                    c2[keys[i_]], c2[keys[j_]] = cond[keys[j_]], cond[keys[i_]]
+                    p0 = p0.add(TTNS(tree, c2).scale(0.7))
+                    hist.append("+product")
+            return p0
         hist.append(f"random(m={m})")
         with np.errstate(all="ignore"):
             return TTNS.random(tree, qntot if mode != "none" else 0, m, float(rng.choice([0.5, 1.0])))
